@@ -705,7 +705,7 @@ def observe_safe(prop, cx, tier, seed, impl=None):
     try:
         return observe(prop, cx, tier, seed, impl)
     except Exception as e:  # noqa: BLE001
-        bogus = {'C02': '[], []', 'C03': '[], 0%nat', 'C05': '[], []', 'C06': '[], (0%nat, 0%nat, [])',
+        bogus = {'C02': '[], []', 'C03': '[], 0%nat', 'C05': '[], []', 'C06': '[([], (0%nat, 0%nat, []))]',
                  'C07': '[], []', 'C09': '0%nat, []', 'C10': '[]', 'C18': '[]', 'C20': '[]'}[prop]
         term = f'({cx.coq()}, 0%nat, {bogus})'
         return Case(term, cx.to_json(), False, [{'implementation_raised': repr(e)}], sig=cx.key())
